@@ -39,6 +39,11 @@ TABLE = [
     ("MULTIPART_FORM_TOTAL_LIMIT", "actix-multipart/src/form/mod.rs", r"total_limit: ([0-9_]+), // 50 MiB"),
     ("MULTIPART_FORM_MEMORY_LIMIT", "actix-multipart/src/form/mod.rs", r"memory_limit: ([0-9_]+), // 2 MiB"),
     ("FILES_CHUNK_SIZE", "actix-files/src/chunked.rs", r"cmp::min\(size\.saturating_sub\(counter\), ([0-9_]+)\) as usize"),
+    ("ETAG_MIN_LEN", "actix-web/src/http/header/entity.rs", r"if !slice\.ends_with\('\"'\) \|\| slice\.len\(\) < ([0-9]+) \{"),
+    ("ETAG_STRONG_MIN_LEN", "actix-web/src/http/header/entity.rs", r"if slice\.len\(\) >= ([0-9]+) && slice\.starts_with\('\"'\) && check_slice_validity\(&slice\[1\.\.length - 1\]\)"),
+    ("ETAG_WEAK_MIN_LEN", "actix-web/src/http/header/entity.rs", r"\} else if slice\.len\(\) >= ([0-9]+)\s+&& slice\.starts_with\(\"W/\\\"\"\)\s+&& check_slice_validity\(&slice\[3\.\.length - 1\]\)"),
+    ("QITEM_MIN_ATTR_LEN", "actix-http/src/header/shared/quality_item.rs", r"if q_attr\.len\(\) < ([0-9]+) \{"),
+    ("QITEM_MAX_QVAL_LEN", "actix-http/src/header/shared/quality_item.rs", r"if q_val\.len\(\) > ([0-9]+) \{"),
     ("DATE_SERVICE_TICK_MS", "actix-http/src/date.rs", r"interval\(Duration::from_millis\(([0-9_]+)\)\)"),
 ]
 
